@@ -18,7 +18,7 @@ import io
 import os
 import traceback
 
-from vf.core import HarnessError, Prop, Violation
+from vf.core import Prop, Violation
 from vf.js import exprgen
 
 prop = Prop(
@@ -64,7 +64,6 @@ def _teardown():
     js.shutdown()
 
 
-PLAIN_FORMS = {"dot", "sq", "dq", "pr-dot", "pr-sq", "pr-dq", "alias-assign"}
 # priority when a missed field is reachable through several forms: a plain form wins (it alone should have
 # been enough for the analysis to see the field)
 FORM_ORDER = ["dot", "sq", "dq", "pr-dot", "pr-sq", "pr-dq", "alias-assign", "reserved-word", "key-escape",
